@@ -6,6 +6,8 @@ import os
 import re
 
 from .lib import hir as H
+from .lib import decide as DT
+from .lib import emit as E
 from .lib import e5run
 from .lib import facts as factsmod
 from .lib.vmarms import vm_arms
@@ -244,28 +246,62 @@ def run(F, R, tier):
             if not var or var[0] not in ("Let", "Function"):
                 continue
             body = a["body"]
-            lets = {s["pat"].get("name"): H.render(s["init"]) for s in body.get("stmts", []) if s["k"] == "let" and s.get("init") is not None}
-            name = "&stmt.name.value" if var[0] == "Let" else "&func.name"
-            okd = lets.get("symbol") == "self.symtab.define(%s, depth)" % name and lets.get("depth") == "self.scopes[self.scope_index].scope_depth"
-            ems = [c for c in H.walk(body) if c.get("k") == "mcall" and c["m"] == "emit"]
-            oke = len(ems) == 2 and all(H.render(c["args"][1]) == "&[symbol.index]" for c in ems)
-            ifs = [x for x in H.walk(body) if x.get("k") == "if" and "symbol.scope" in H.render(x["c"])]
-            oks_ = len(ifs) == 1 and H.render(ifs[0]["c"]) == "(symbol.scope == SymbolScope::Global)" and "Opcode::DefineGlobal" in H.render(ifs[0]["t"]) and "Opcode::DefineLocal" in H.render(ifs[0].get("e"))
+            KEEP = ("define", "compile_let_stmt", "compile_function_literal", "compile_expression", "emit")
+            ib = H.inline_helpers(F, body, skip=lambda c: H.last(c) in KEEP)
+            nb = H.unlet(ib)
+            name = "stmt.name.value" if var[0] == "Let" else "func.name"
+            # the one definition: symtab.define(<this statement's name>, <the current scope's block depth>)
+            defs = {DT.canon_text(c) for c in H.walk(nb) if c.get("k") == "mcall" and (c.get("callee") or "").endswith("SymbolTable::define")}
+            DEF = "self.symtab.define(%s, self.scopes[self.scope_index].scope_depth)" % name
+            okd = defs == {DEF}
+            ems = [c for c in H.walk(nb) if c.get("k") == "mcall" and c["m"] == "emit" and (H.last(H.ctor_of(H.strip(c["args"][0])) or "")).startswith("Define")]
+            oke = len(ems) == 2 and all(DT.canon_text(c["args"][1]) == "[%s.index]" % DEF for c in ems)
+            # which Define: by the symbol's own scope
+            holders = sorted([x for x in H.walk(nb) if x.get("k") in ("if", "match") and not H.is_try(x) and sum(1 for c in H.walk(x) if any(c is e for e in ems)) == 2], key=H._size)
+            oks_ = False
+            sdet = "no conditional around the two Define emits"
+            if holders:
+                hn = holders[0]
+                got = {}
+                if hn["k"] == "if":
+                    be = H.bool_expr(hn["c"])
+                    neg = be[0] == "not"
+                    at = (be[1] if neg else be)
+                    at = at[1] if at[0] == "atom" else ""
+                    eq = DT.canon_text(hn["c"])
+                    m_ = re.fullmatch(r"\(?%s\.scope (==|!=) SymbolScope::(Global|Local)\)?" % re.escape(DEF), eq)
+                    if m_:
+                        t_is = (m_.group(2) if m_.group(1) == "==" else {"Global": "Local", "Local": "Global"}[m_.group(2)])
+                        e_is = {"Global": "Local", "Local": "Global"}[t_is]
+                        got = {t_is: [H.last(H.ctor_of(H.strip(c["args"][0]))) for c in ems if any(c is y for y in H.walk(hn["t"]))],
+                               e_is: [H.last(H.ctor_of(H.strip(c["args"][0]))) for c in ems if hn.get("e") is not None and any(c is y for y in H.walk(hn["e"]))]}
+                    sdet = eq
+                else:
+                    if DT.canon_text(hn["scrut"]) == DEF + ".scope":
+                        for arm in hn["arms"]:
+                            vs = {H.last(v) for v in H.pat_variants(arm["pat"])}
+                            which = [H.last(H.ctor_of(H.strip(c["args"][0]))) for c in ems if any(c is y for y in H.walk(arm["body"]))]
+                            for v in vs:
+                                got.setdefault("Global" if v == "Global" else "Local", []).extend(which)
+                    sdet = "match " + DT.canon_text(hn["scrut"])
+                oks_ = got.get("Global") == ["DefineGlobal"] and set(got.get("Local") or []) == {"DefineLocal"}
+                sdet += " → %s" % got
             # the symbol is defined before the value is compiled (recursive functions), the Define follows the value
             seq = []
-            for st in body.get("stmts", []):
-                t = H.render(st.get("init") if st["k"] == "let" else st.get("e"))
-                if "symtab.define" in t:
+            for c in E.eval_order(ib):
+                if c.get("k") not in ("call", "mcall"):
+                    continue
+                nm = H.last(c.get("callee") or "")
+                if nm == "define" and (c.get("callee") or "").endswith("SymbolTable::define"):
                     seq.append("define")
-                elif "compile_let_stmt" in t or "compile_function_literal" in t:
+                elif nm in ("compile_let_stmt", "compile_function_literal"):
                     seq.append("value")
-                elif "Opcode::Define" in t:
-                    seq.append("emit")
-            tail = body.get("expr")
-            if tail is not None and "Opcode::Define" in H.render(tail):
-                seq.append("emit")
+                elif nm == "emit" and (H.last(H.ctor_of(H.strip(c["args"][0])) or "")).startswith("Define"):
+                    if seq[-1:] != ["emit"]:
+                        seq.append("emit")
             R.ob("slot-provenance", "Statement::%s: the Define* operand is the index of the symbol defined for this name, global/local by the symbol's scope" % var[0],
-                 okd and oke and oks_ and seq == ["define", "value", "emit"], "lets %s; sequence %s" % ({k: lets[k] for k in lets if k in ("symbol", "depth")}, seq), F.loc(cs))
+                 okd and oke and oks_ and seq == ["define", "value", "emit"], "definitions %s; operands %s; %s; sequence %s" % (
+                     sorted(defs), sorted({DT.canon_text(c["args"][1]) for c in ems}), sdet, seq), F.loc(cs))
     ci = F.fn(C + "compile_identifier")
     if R.anchor(C + "compile_identifier", ci):
         b = H.body_of(ci)
@@ -274,7 +310,7 @@ def run(F, R, tier):
         ok = len(ifl) == 1 and H.render(ifl[0]["c"]).endswith("= self.symtab.resolve(&expr.token.literal, depth)") and "e" in ifl[0] and H.diverges(ifl[0]["e"]) and \
             "v1::Err" in H.render(ifl[0]["e"]) and not [c for c in H.walk(ifl[0]["e"]) if c.get("k") == "mcall" and c["m"] == "emit"]
         R.ob("undefined-name-rejected", "a name the symbol table does not resolve is a compile error and nothing is emitted for it", ok, t[:200], F.loc(ci))
-        calls = [(c["m"], H.render(c["args"][0])) for c in H.walk(b) if c.get("k") == "mcall" and c["m"] in ("load_symbol", "save_symbol")]
+        calls = [(c["m"], H.render(H.strip(c["args"][0]))) for c in H.walk(b) if c.get("k") == "mcall" and c["m"] in ("load_symbol", "save_symbol")]
         R.ob("slot-provenance", "an identifier is loaded/stored through the symbol resolved for its own name", sorted(calls) == [("load_symbol", "symbol"), ("save_symbol", "symbol")], str(calls), F.loc(ci))
     from . import c04 as _c04  # symbol scope → opcode table is C04's rule; evaluated here as well (slot index operand)
     for fn, want in (("load_symbol", 6), ("save_symbol", 3)):
